@@ -31,6 +31,7 @@ open Goml Goml.Unify
 inductive IDiag where
   | varNotFound | fnNotFound | builtinAsValue | unresolvedName | unresolvedCallee
   | tupleIndex | projNonTuple | popBase | outOfFragment
+  | typeNotFound | methodArity | methodNotCallable | methodNotFound
   deriving Repr, DecidableEq, Inhabited
 
 def IDiag.name : IDiag → String
@@ -38,6 +39,8 @@ def IDiag.name : IDiag → String
   | .unresolvedName => "unresolved-name" | .unresolvedCallee => "unresolved-callee"
   | .tupleIndex => "tuple-index" | .projNonTuple => "proj-non-tuple" | .popBase => "pop-base"
   | .outOfFragment => "out-of-fragment"
+  | .typeNotFound => "type-not-found" | .methodArity => "method-arity" | .methodNotCallable => "method-not-callable"
+  | .methodNotFound => "method-not-found"
 
 /-- `hir::NameRef` -/
 inductive NameRes where
@@ -71,6 +74,12 @@ inductive IExpr where
   | proj (i : Nat) (e : IExpr) (idx : Nat)
   | field (i : Nat) (e : IExpr) (f : String)
   | matchE (i : Nat) (scrut : IExpr) (arms : List IArm)
+  /-- `recv.m(args)`: a call whose callee is `EField { expr: recv, field: m }` (`fi` = the callee's `ExprId`) -/
+  | mcall (i fi : Nat) (recv : IExpr) (m : String) (args : List IExpr)
+  /-- `T::m(args)`: a call whose callee is `EStaticMember` with the two-segment path `T::m`, `T` not a trait -/
+  | scall (i fi : Nat) (tyName m : String) (args : List IExpr)
+  /-- `[e, …]` -/
+  | array (i : Nat) (items : List IExpr)
 inductive IArm where
   | mk (p : IPat) (body : IExpr)
 end
@@ -95,7 +104,10 @@ inductive TExpr where
   | lvar (x : Nat) (ty : Ty)
   | gvar (name : String) (ty : Ty)
   | err (ty : Ty)
+  /-- `EInherentMethod { receiver_ty, method_name, ty }` -/
+  | mvar (recv : Ty) (name : String) (ty : Ty)
   | prim (ty : Ty)
+  | array (items : List TExpr) (ty : Ty)
   | tuple (items : List TExpr) (ty : Ty)
   | closure (params : List (Nat × Ty)) (body : TExpr) (ty : Ty)
   | letE (p : TPat) (vty : Ty) (v : TExpr)
@@ -116,7 +128,8 @@ instance : Inhabited TExpr := ⟨.prim .unit⟩
 
 /-- `tast::Expr::get_ty` -/
 def TExpr.ty : TExpr → Ty
-  | .lvar _ t => t | .gvar _ t => t | .err t => t | .prim t => t | .tuple _ t => t | .closure _ _ t => t
+  | .lvar _ t => t | .gvar _ t => t | .err t => t | .mvar _ _ t => t | .prim t => t | .array _ t => t
+  | .tuple _ t => t | .closure _ _ t => t
   | .letE _ _ _ => .unit | .block _ t => t | .ite _ _ _ t => t | .while _ _ => .unit | .call _ _ t => t
   | .un _ _ t => t | .bin _ _ _ t => t | .proj _ _ t => t | .field _ _ t => t | .matchE _ _ t => t
 
@@ -128,11 +141,20 @@ def ptysOf : List TPat → List Ty
   | [] => []
   | p :: ps => p.ty :: ptysOf ps
 
+/-- `InherentImplKey` -/
+inductive ImplKey where
+  | exact (t : Ty)
+  | constr (n : String)
+
 /-- what the generation reads of the global environment: the types of the top-level functions
 (`lookup_function_type_by_hint` / `get_type_of_function`, package `Main`) and the tables `solve` reads -/
 structure GEnv where
   funs : List (String × Ty)
   env : Unify.Env
+  /-- `trait_env.inherent_impls`: one row per method (key, method name, type of its scheme) -/
+  inherent : List (ImplKey × String × Ty) := []
+  /-- the names of the enums of the package (the structs are in `env.structs`) -/
+  enums : List String := []
 
 /-- `LocalTypeEnv.scopes`, innermost scope FIRST; a scope lists its newest binding first -/
 abbrev Scopes := List (List (Nat × Ty))
@@ -143,11 +165,15 @@ structure St where
   diags : List IDiag
   /-- `results.record_expr_ty` in the order of the calls -/
   recs : List (Nat × Ty)
+  /-- GHOST (not part of the Rust state, not compared by the tie): set when generation went through a form that
+  `Props/Infer.lean::infer_sound` does not cover yet (method-call forms, array literals) -/
+  outside : Bool := false
 
 def St.fresh (s : St) : Ty × St := (.tvar s.σ.n, { s with σ := s.σ.fresh })
 def St.push (s : St) (c : Constraint) : St := { s with cs := s.cs ++ [c] }
 def St.diag (s : St) (d : IDiag) : St := { s with diags := s.diags ++ [d] }
 def St.record (s : St) (i : Nat) (t : Ty) : St := { s with recs := s.recs ++ [(i, t)] }
+def St.mark (s : St) : St := { s with outside := true }
 /-- `Typer::inst_ty` -/
 def St.inst (s : St) (t : Ty) : Ty × St :=
   let r := instTy s.σ [] t
@@ -359,6 +385,43 @@ def callParamTys (inst : Ty) (nargs : Nat) : Option (List Ty) :=
   | .func ps _ => if ps.length = nargs && !ps.isEmpty then some ps else none
   | _ => none
 
+/-- `Ty::constr_name` / `util::try_constr_name` -/
+def constrName : Ty → Option String
+  | .enum n => some n
+  | .struct n => some n
+  | .app t _ => constrName t
+  | .vec _ => some "Vec"
+  | .ref _ => some "Ref"
+  | _ => none
+
+/-- `TraitEnv::lookup_inherent_method`: the impl of exactly this type first, then the impl of its constructor
+(enum / struct / applied nominal type only) -/
+def lookupInherent (G : GEnv) (recv : Ty) (m : String) : Option Ty :=
+  match G.inherent.find? (fun r => match r.1 with | .exact t => tyEq t recv && r.2.1 == m | .constr _ => false) with
+  | some r => some r.2.2
+  | none =>
+    let c := match recv with
+      | .enum n => some n
+      | .struct n => some n
+      | .app t _ => constrName t
+      | _ => none
+    match c with
+    | some c =>
+      (G.inherent.find? (fun r => match r.1 with | .constr n => n == c && r.2.1 == m | .exact _ => false)).map (·.2.2)
+    | none => none
+
+/-- `TraitEnv::instantiation_impl_defines` -/
+def instImplDefines (G : GEnv) (c : String) (m : String) : Bool :=
+  G.inherent.any fun r => match r.1 with
+    | .exact (.app t _) => constrName t == some c && r.2.1 == m
+    | _ => false
+
+/-- the receiver type `Type::m` starts from: the enum / struct of that name -/
+def nominalOf (G : GEnv) (n : String) : Option Ty :=
+  if G.enums.contains n then some (.enum n)
+  else if G.env.structs.any (fun sd => sd.name == n) then some (.struct n)
+  else none
+
 mutual
 def go : IExpr → Option Ty → GEnv → Scopes → St → Res
   | .lit i ty, exp, _, Γ, s => finish i exp true (.prim ty) Γ s
@@ -566,6 +629,98 @@ def go : IExpr → Option Ty → GEnv → Scopes → St → Res
         match goArms arms tsc.ty none v.1 G Γ1 v.2 with
         | none => none
         | some (tas, Γ2, s2) => finish i exp true (.matchE tsc tas v.1) Γ2 s2
+  | .array i items, exp, G, Γ, s =>
+    -- `infer_array_expr`: the element variable first, every item inferred and equated with it
+    let v := s.mark.fresh
+    match goArr items v.1 G Γ v.2 with
+    | none => none
+    | some (ts, Γ1, s1) => finish i exp true (.array ts (.array items.length v.1)) Γ1 s1
+  | .mcall i fi recv m args, exp, G, Γ, s =>
+    -- the `EField` arm of `infer_call_expr`
+    match go recv none G Γ s.mark with
+    | none => none
+    | some (tr, Γ1, s1) =>
+      match lookupInherent G tr.ty m with
+      | some mty =>
+        match goL args G Γ1 s1 with
+        | none => none
+        | some (ts, Γ2, s2) =>
+          let it := s2.inst mty
+          let v := it.2.fresh
+          finish i exp true (.call (.mvar tr.ty m it.1) (tr :: ts) v.1) Γ2
+            ((v.2.push (.eq it.1 (.func (tr.ty :: tysOf ts) v.1))).record fi it.1)
+      | none =>
+        match tr.ty with
+        | .param _ =>
+          let e := errExpr (s1.diag .outOfFragment)
+          finish i exp true e.1 Γ1 e.2
+        | _ =>
+          let e := errExpr (s1.diag .methodNotFound)
+          finish i exp true e.1 Γ1 e.2
+  | .scall i fi tyName m args, exp, G, Γ, s =>
+    -- the inherent part of `infer_static_member_call_expr`
+    match nominalOf G tyName with
+    | none =>
+      let e := errExpr (s.mark.diag .typeNotFound)
+      finish i exp true e.1 Γ e.2
+    | some recv0 =>
+      if !args.isEmpty && instImplDefines G tyName m then
+        -- an impl of a single instantiation defines `m`: the receiver is inferred FIRST and decides which impl is meant
+        match goHead args G Γ s.mark with
+        | none => none
+        | some (t0s, Γ1, s1) =>
+          let t0ty := (tysOf t0s).headD .unit
+          let look := match (if constrName t0ty == some tyName then lookupInherent G t0ty m else none) with
+            | some mty => some (t0ty, mty)
+            | none => (lookupInherent G recv0 m).map fun mty => (recv0, mty)
+          match look with
+          | none => let e := errExpr (s1.diag .methodNotFound); finish i exp true e.1 Γ1 e.2
+          | some (rty, mty) =>
+            let it := s1.inst mty
+            match it.1 with
+            | .func ps ret =>
+              if ps.length ≠ args.length then let e := errExpr (it.2.diag .methodArity); finish i exp true e.1 Γ1 e.2
+              else
+                -- the receiver is tied to the first parameter, the other arguments are CHECKED against theirs
+                match goZipTail args ps G Γ1 (it.2.push (.eq t0ty (ps.headD .unit))) with
+                | none => none
+                | some (ts, Γ2, s2) =>
+                  finish i exp true (.call (.mvar rty m it.1) (t0s ++ ts) ret) Γ2 (s2.record fi it.1)
+            | _ => let e := errExpr (it.2.diag .methodNotCallable); finish i exp true e.1 Γ1 e.2
+      else
+        match lookupInherent G recv0 m with
+        | none => let e := errExpr (s.mark.diag .methodNotFound); finish i exp true e.1 Γ e.2
+        | some mty =>
+          let it := s.mark.inst mty
+          match it.1 with
+          | .func ps ret =>
+            if ps.length ≠ args.length then let e := errExpr (it.2.diag .methodArity); finish i exp true e.1 Γ e.2
+            else
+              match goZip args ps G Γ it.2 with
+              | none => none
+              | some (ts, Γ2, s2) => finish i exp true (.call (.mvar recv0 m it.1) ts ret) Γ2 (s2.record fi it.1)
+          | _ => let e := errExpr (it.2.diag .methodNotCallable); finish i exp true e.1 Γ e.2
+/-- the first expression only, inferred -/
+def goHead : List IExpr → GEnv → Scopes → St → Option (List TExpr × Scopes × St)
+  | [], _, Γ, s => some ([], Γ, s)
+  | e :: _, G, Γ, s =>
+    match go e none G Γ s with
+    | none => none
+    | some (t, Γ1, s1) => some ([t], Γ1, s1)
+/-- all but the first expression, checked against all but the first type -/
+def goZipTail : List IExpr → List Ty → GEnv → Scopes → St → Option (List TExpr × Scopes × St)
+  | _ :: es, _ :: xs, G, Γ, s => goZip es xs G Γ s
+  | _, _, _, Γ, s => some ([], Γ, s)
+/-- the items of an array literal: each inferred, then equated with the element variable -/
+def goArr : List IExpr → Ty → GEnv → Scopes → St → Option (List TExpr × Scopes × St)
+  | [], _, _, Γ, s => some ([], Γ, s)
+  | e :: es, el, G, Γ, s =>
+    match go e none G Γ s with
+    | none => none
+    | some (t, Γ1, s1) =>
+      match goArr es el G Γ1 (s1.push (.eq t.ty el)) with
+      | none => none
+      | some (ts, Γ2, s2) => some (t :: ts, Γ2, s2)
 /-- every expression inferred, left to right -/
 def goL : List IExpr → GEnv → Scopes → St → Option (List TExpr × Scopes × St)
   | [], _, Γ, s => some ([], Γ, s)
